@@ -318,7 +318,7 @@ def _ev(e, env, memo):
             if name in OPS:
                 return OPS[name]()
             raise Unknown(f"free constant {name}")
-        if name in LAMBDA_OPS:
+        if name in LAMBDA_OPS or name in ("stack_lam_I_A", "rows_lam_I_A"):
             n = _i(ev(ch[0], env, memo))
             rows = []
             for i in range(n):
@@ -329,7 +329,14 @@ def _ev(e, env, memo):
                 raise Unknown("empty lambda stack")
             return np.stack(rows)
         if name not in OPS:
-            raise Unknown(f"operator {name}")
+            # values.U mangles a name with the first letters of its argument sorts when one name is used at several
+            # signatures (clamp_A_R_R, zeros_I, ...): same operator
+            import re
+            mm = re.match(r"^(.*?)((?:_[A-Z])+)$", name)
+            if mm and len(mm.group(2)) // 2 == len(ch) and mm.group(1) in OPS:
+                name = mm.group(1)
+            else:
+                raise Unknown(f"operator {name}")
         args = [ev(c, env, memo) for c in ch]
         try:
             with np.errstate(all="ignore"):
